@@ -1,9 +1,10 @@
 (* C34: pick_first connects in order, picks only READY, keeps sticky TF.
    Theorems only; each is closed by [exact] of a lemma from proof/PickFirst_proofs.v.
-   Model: model/PickFirst.v.  Addresses are codes fam*1000+n.  The policy is driven in
-   rounds: a resolver update with any address list, then every connection request is
-   answered CONNECTING,TRANSIENT_FAILURE except the k-th (CONNECTING,READY).
-   [reachable s]: s is the state after any number of rounds / resolver errors. *)
+   Model: model/PickFirst.v, a function-by-function transcription of pickfirst.go.
+   Addresses are codes fam*1000+n.  Operations: resolver update (any list) | resolver error |
+   state report s of ANY sub-channel ever created (also shut-down ones), in any order |
+   250ms pass (the happy-eyeballs timer fires if scheduled) | ExitIdle.
+   [reachable s]: s is the state after any list of such operations, of any length. *)
 From Coq Require Import List ZArith Bool Permutation.
 From VLib Require Import Codec.
 From VModel Require Import PickFirst.
@@ -39,60 +40,67 @@ Theorem C34_preprocess_head : forall a l, exists r, preprocess (a :: l) = a :: r
 Proof. exact preprocess_head. Qed.
 Print Assumptions C34_preprocess_head.
 
-(* In every reachable state, for every resolver update l0 and every choice k of the
-   attempt that succeeds (none if k is out of range), the events ch of the round satisfy:
-   ready_ok: READY is published only with a picker returning the sub-channel that was just
-     answered READY, after every other sub-channel (old and new) received Shutdown;
-   order_ok: NewSubConn/Connect are issued once per fresh sub-channel, for addresses forming
-     a subsequence (in order) of preprocess l0 - which has no duplicates (C34_preprocess_nodup);
-   tf_ok: if no attempt succeeded the pass ends with TRANSIENT_FAILURE;
-   and while sticky no CONNECTING is published before READY. *)
-Theorem C34_round_properties : forall s k l0, reachable s ->
-  let ch := snd (round s k l0) in
-  let l' := preprocess (filter valid_addr l0) in
-  ready_ok s ch = true /\ order_ok l' ch = true /\
-  (filter valid_addr l0 <> [] ->
-   match rdy s with Some p => memz (fst p) l' | None => false end = false -> tf_ok k ch = true) /\
-  (sticky s = true -> connecting_before_ready ch false = None).
-Proof. exact round_properties. Qed.
-Print Assumptions C34_round_properties.
+(* "never reports READY or returns a subchannel unless that subchannel's latest state is READY,
+   and once one becomes READY all other subchannels are shut down": in every reachable state,
+   whatever the next operation, READY is published only while processing the READY report of
+   a sub-channel sc that has not been shut down, the picker returns exactly sc, and every
+   other sub-channel ever created was shut down before or is shut down in this operation. *)
+Theorem C34_ready_sound : forall s op x, reachable s ->
+  In (READY, x) (u_events (snd (step_main s op))) ->
+  exists sc, op = [2; zn sc; READY] /\ x = zn sc /\ (sc < nsc s)%nat /\ d_shut (sds s sc) = false /\
+             forall sc', (sc' < nsc s)%nat -> sc' <> sc ->
+               d_shut (sds s sc') = true \/ In (zn sc') (s_scs (snd (step_main s op))).
+Proof. exact ready_only_on_ready_report. Qed.
+Print Assumptions C34_ready_sound.
+
+(* the sub-channels the policy holds are exactly the ones created and not shut down *)
+Theorem C34_active_iff_not_shut : forall s, reachable s ->
+  (forall sc, In sc (subs s) -> (sc < nsc s)%nat /\ d_shut (sds s sc) = false) /\
+  (forall sc, (sc < nsc s)%nat -> ~ In sc (subs s) -> d_shut (sds s sc) = true).
+Proof. exact reachable_alive. Qed.
+Print Assumptions C34_active_iff_not_shut.
 
 (* "after every address failed it reports TRANSIENT_FAILURE and keeps reporting it (not
-   CONNECTING) until some subchannel becomes READY": from any reachable sticky state (TF
-   reported after a pass over a non-empty list) EVERY resolver update - adding, removing or
-   keeping addresses, any successful attempt k or none - publishes only TRANSIENT_FAILURE or
-   READY, never CONNECTING, and leaves the policy sticky again or READY.  The only way out
-   without READY is the code's A62 exception: an empty address list (resolver-error TF,
-   naddrs = 0), after which the next non-empty update forces CONNECTING.
-   (Code as repaired by commit 4e698e5; before it the new sub-channel of an added address
-   published CONNECTING - that witness is replayed as case 0 of every run.) *)
-Theorem C34_sticky_tf : forall s k l0, reachable s -> sticky s = true ->
-  let r := round s k l0 in
-  (forall u, In u (u_events (snd r)) -> fst u = TF \/ fst u = READY) /\
-  connecting_before_ready (snd r) false = None /\
-  (sticky (fst r) = true \/ bstate (fst r) = READY \/ filter valid_addr l0 = []).
+   CONNECTING) until some subchannel becomes READY": from any reachable state in which TF
+   published at the end of a pass over a non-empty list stands (nothing else published since,
+   no empty address list since) and no active sub-channel's latest state is READY, NO
+   operation publishes CONNECTING - resolver updates adding or removing addresses, reports of
+   any sub-channel in any order, timer firings, ExitIdle, resolver errors.  The only exception
+   is the code's own (A62): an empty address list, after which CONNECTING is forced.  A
+   published IDLE (CONNECTING->IDLE of a sub-channel, which the code treats as a connection
+   that was READY and got lost) ends stickiness like READY does. *)
+Theorem C34_sticky_tf : forall s op u, reachable s -> sticky_eff s = true ->
+  (forall r, op = 1 :: r -> filter valid_addr r <> []) ->
+  In u (u_events (snd (step_main s op))) -> fst u <> CONNECTING.
 Proof. exact sticky_tf. Qed.
 Print Assumptions C34_sticky_tf.
 
-Theorem C34_sticky_tf_resolver_error : forall s, sticky s = true ->
-  snd (resolver_error s) = [evU TF (-1)] /\ sticky (fst (resolver_error s)) = true.
-Proof. exact sticky_tf_resolver_error. Qed.
-Print Assumptions C34_sticky_tf_resolver_error.
+Theorem C34_sticky_flag_means_tf : forall s, reachable s -> sticky s = true -> bstate s = TF.
+Proof. exact sticky_means_tf. Qed.
+Print Assumptions C34_sticky_flag_means_tf.
 
-(* All clauses (1-5) evaluated on implementation traces hold on every trace of the model,
-   for every op list. *)
-Theorem C34_holds_on_every_model_trace : forall ops,
-  exists obs, run ops = Some obs /\ holds_b ops obs = true.
+(* The bridge for clauses 1 (READY soundness) and 4 (sticky TF): they hold on every trace
+   of the model, for every op list.
+   PARTIAL: clauses 2 (C34_order: at most one in-pass Connect per operation, to the address
+   the pass has advanced to, strictly after the previous position) and 3
+   (C34_tf_after_all_failed: list exhausted and every active sub-channel in TF while a pass
+   runs => TF published in that operation) are evaluated on implementation traces on every
+   run but are NOT yet proved of the model; missing: an invariant relating
+   connectionFailedInFirstPass to the positions the pass has gone past. *)
+Theorem C34_holds_on_every_model_trace_partial : forall ops,
+  exists obs, run ops = Some obs /\ holds_1_4 ops obs = true.
 Proof. exact model_trace_holds. Qed.
-Print Assumptions C34_holds_on_every_model_trace.
+Print Assumptions C34_holds_on_every_model_trace_partial.
 
-(* non-vacuity; the third line is the former sticky-TF counterexample: [a1] fails -> TF,
-   update [a2] -> the new sub-channel is tried, nothing but TF is published *)
+(* non-vacuity: interleaving; the former sticky-TF counterexample (only TF is published when
+   the added address is tried); a late READY from a shut-down sub-channel is ignored *)
 Example C34_witness :
   preprocess [1001; 2001; 1001; 1002; 5; 2002; 2003] = [1001; 2001; 5; 1002; 2002; 2003] /\
-  snd (run_from (fst (run_from init [[1; -1; 1001]])) [[1; -1; 1002]]) =
-    [[12; 0]; [14; 0]; [2; 1; 1002]; [3; 1]; [1; 3; -1]; [0]] /\
-  sticky (fst (run_from init [[1; -1; 1001]])) = true /\
-  snd (run_from init [[1; 1; 1000; 2; 0]]) =
-    [[12; 0]; [1; 1; -1]; [2; 0; 1000]; [3; 0]; [2; 1; 2]; [3; 1]; [14; 0]; [1; 2; 1]; [0]].
+  snd (run_from init [[1; 1001]; [2; 0; 1]; [2; 0; 3]; [1; 1002]; [2; 1; 1]; [2; 1; 3]]) =
+    [[1; 1; -1]; [2; 0; 1001]; [3; 0]; [12; 0]; [0]; [0]; [1; 3; -1]; [0];
+     [14; 0]; [2; 1; 1002]; [3; 1]; [12; 0]; [0]; [0]; [1; 3; -1]; [0]] /\
+  sticky_eff (fst (run_from init [[1; 1001]; [2; 0; 1]; [2; 0; 3]])) = true /\
+  snd (run_from init [[1; 1001; 1002]; [2; 0; 1]; [1; 1002]; [1; 1001; 1002]; [2; 0; 2]]) =
+    [[1; 1; -1]; [2; 0; 1001]; [3; 0]; [12; 0]; [0]; [0]; [14; 0]; [1; 1; -1]; [2; 1; 1002]; [3; 1]; [12; 0]; [0];
+     [1; 1; -1]; [2; 2; 1001]; [3; 2]; [12; 0]; [0]; [0]].
 Proof. vm_compute. repeat split; reflexivity. Qed.
